@@ -694,7 +694,7 @@ def _c19() -> List[Obl]:
                            tier="quick" if w == "u8" else "thorough", kind="bounded", bound="backend window K=2 words", only=r"contract|c08",
                            fns=[f"BufBitReader<{E},_<{w}>>::copy_to"], confirm=f"obl_c08::rd_{el}::u8_::c08_copy_to_confirm"))
             out.append(Obl(id=f"c19.no_copy_impls.copy_to.{E}.{w}", prop="C19", engine="kani", target=f"obl_c08::rd_{el}::{w}_::c08_copy_to_k2", features="no_copy_impls",
-                           tier="quick" if w == "u8" else "thorough", kind="bounded", bound="backend window K=2 words",
+                           tier="quick" if (w == "u8" and E == "BE") else "thorough", kind="bounded", bound="backend window K=2 words",
                            fns=[f"BitRead::copy_to (default) on BufBitReader<{E},_<{w}>>"]))
         for w in ("u8", "u64"):
             out.append(Obl(id=f"c19.checks.copy_from.{E}.{w}", prop="C19", engine="kani", target=f"obl_c08::wr_{el}::{w}_::c08_copy_from", features="checks",
@@ -712,7 +712,7 @@ def _c08_impl() -> List[Obl]:
     for el, E in ENDIANS:
         for w in RWORDS:
             for k in (2, 4):
-                tier = "quick" if (w in QUICK_R and k == 2) else "thorough"
+                tier = "quick" if (w == "u8" and k == 2) else "thorough"
                 out.append(Obl(id=f"c08.copy_to.{E}.{w}.K{k}", prop="C08", engine="kani", target=f"obl_c08::rd_{el}::{w}_::c08_copy_to_k{k}", tier=tier,
                                kind="bounded", bound=f"backend window K={k} words, writer model of 256 bits; every n, every reader state (incl. more than one word buffered)",
                                fns=[f"BufBitReader<{E},_<{w}>>::copy_to"], confirm=f"obl_c08::rd_{el}::u8_::c08_copy_to_confirm" if w != "u64" else f"obl_c08::rd_{el}::u8_::c08_copy_to_confirm"))
@@ -720,7 +720,7 @@ def _c08_impl() -> List[Obl]:
                            tier="quick" if w == "u8" else "thorough", kind="bounded", bound="copy, then an optional peek and a read (continuation operations)",
                            fns=[f"BufBitReader<{E},_<{w}>>::copy_to + peek_bits + read_bits"]))
         for w in WWORDS:
-            tier = "quick" if w in QUICK_W else "thorough"
+            tier = "quick" if w in ("u8", "u64") else "thorough"
             out.append(Obl(id=f"c08.copy_from.{E}.{w}", prop="C08", engine="kani", target=f"obl_c08::wr_{el}::{w}_::c08_copy_from", tier=tier,
                            kind="bounded", bound="writer window of 2-4 words, source model of 256 bits; every n, every writer state", fns=[f"BufBitWriter<{E},_<{w}>>::copy_from"]))
     return out
